@@ -48,6 +48,12 @@ func (fr *Frame) evalCall1(s *State, call *ast.CallExpr) []*Val {
 			if v.Fn != nil {
 				return fr.callClosure(s, v.Fn, call)
 			}
+			if fr.pureFuncVar(o) {
+				for _, a := range call.Args {
+					fr.eval(s, a)
+				}
+				return fr.freshResults(s, fr.typeOf(call))
+			}
 		}
 	case *ast.FuncLit:
 		return fr.callClosure(s, &Closure{Lit: f, Frame: fr}, call)
@@ -953,4 +959,67 @@ func isLowerCFunc(name string) bool {
 		}
 	}
 	return false
+}
+
+// pureFuncVar: a func-typed local variable of the function under verification all of whose assignments (in the
+// whole body, closures included) are names of declared functions that carry a `pure` contract. A call through it
+// is then a call to one of those functions: no heap effect, unknown results. (Their preconditions are not checked:
+// only contracts without requires qualify.)
+func (fr *Frame) pureFuncVar(o *types.Var) bool {
+	if fr.fi == nil || fr.fi.Decl.Body == nil || o.IsField() || o.Parent() == nil || o.Parent() == o.Pkg().Scope() {
+		return false
+	}
+	if _, ok := o.Type().Underlying().(*types.Signature); !ok {
+		return false
+	}
+	info := fr.fi.Pkg.TypesInfo
+	okAll, seen := true, false
+	check := func(rhs ast.Expr) {
+		id, ok := ast.Unparen(rhs).(*ast.Ident)
+		if !ok {
+			okAll = false
+			return
+		}
+		f, ok := info.Uses[id].(*types.Func)
+		if !ok {
+			okAll = false
+			return
+		}
+		c := fr.eng.contractFor(f)
+		if c == nil || !c.Pure || len(c.Requires) > 0 {
+			okAll = false
+			return
+		}
+		c.Used = true
+		fr.eng.trustedUsed["call through func variable "+o.Name()+" resolved to pure "+funcKey(f)] = true
+		seen = true
+	}
+	ast.Inspect(fr.fi.Decl.Body, func(n ast.Node) bool {
+		switch x := n.(type) {
+		case *ast.AssignStmt:
+			for i, l := range x.Lhs {
+				if id, ok := l.(*ast.Ident); ok && (info.Uses[id] == o || info.Defs[id] == o) {
+					if len(x.Rhs) == len(x.Lhs) {
+						check(x.Rhs[i])
+					} else {
+						okAll = false
+					}
+				}
+			}
+		case *ast.ValueSpec:
+			for i, id := range x.Names {
+				if info.Defs[id] == o && i < len(x.Values) {
+					check(x.Values[i])
+				}
+			}
+		case *ast.UnaryExpr:
+			if x.Op == token.AND {
+				if id, ok := ast.Unparen(x.X).(*ast.Ident); ok && info.Uses[id] == o {
+					okAll = false // address taken
+				}
+			}
+		}
+		return true
+	})
+	return okAll && seen
 }
